@@ -133,7 +133,9 @@ def code_objects(co, depth=0):
             yield from code_objects(c, depth + 1)
 def guarded_ranges(co):
     try:
-        return [(e.start, e.end) for e in dis.Bytecode(co).exception_entries]
+        # only the bodies of try statements: the table also lists the handlers themselves (entries with lasti set, whose target merely
+        # restores the exception state and re-raises), and a name evaluated in an `except (A, B, np.C):` header is not protected by them
+        return [(e.start, e.end) for e in dis.Bytecode(co).exception_entries if not e.lasti]
     except Exception:
         return []
 def chains(co):
